@@ -16,7 +16,8 @@ use rs_matter::dm::clusters::acl::AccessControlAuxiliaryTypeEnum;
 use rs_matter::dm::Privilege;
 use rs_matter::error::Error;
 use rs_matter::im::{
-    AttrPath, ClusterPath, CmdPath, DataVersionFilter, EventFilter, EventPath, IMStatusCode, Status, StatusResp, TimedReq,
+    AttrData, AttrPath, AttrResp, AttrStatus, ClusterPath, CmdData, CmdPath, CmdResp, CmdStatus, DataVersionFilter, EventFilter, EventPath,
+    IMStatusCode, Status, StatusResp, TimedReq,
 };
 use rs_matter::sc::VerifSessionParams as Sp;
 use rs_matter::tlv::{FromTLV, Nullable, TLVElement, TLVTag, TLVWrite, ToTLV};
@@ -33,6 +34,12 @@ pub enum V {
     Bytes(Vec<u8>),
     Obj(Vec<V>),
     Arr(Vec<V>),
+    /// a raw `TLVElement` field: the bytes of the element under the anonymous tag
+    Raw(Vec<u8>),
+    /// the empty `TLVElement` (field not present)
+    Empty,
+    /// variant `i` of an enum with payload
+    Variant(usize, Box<V>),
 }
 
 fn parse_one(toks: &[&str], pos: &mut usize) -> Result<V, String> {
@@ -43,6 +50,24 @@ fn parse_one(toks: &[&str], pos: &mut usize) -> Result<V, String> {
         "n" => V::Null,
         "T" => V::Bool(true),
         "F" => V::Bool(false),
+        "_" => V::Empty,
+        "(" => {
+            let i = toks.get(*pos).ok_or("BADSLOT")?.parse::<usize>().map_err(|_| "BADSLOT".to_string())?;
+            *pos += 1;
+            let v = parse_one(toks, pos)?;
+            if toks.get(*pos) != Some(&")") {
+                return Err("BADSLOT".into());
+            }
+            *pos += 1;
+            V::Variant(i, Box::new(v))
+        }
+        x if x.starts_with("r:") => {
+            let h = &x[2..];
+            if h.is_empty() || h.len() % 2 != 0 || !h.bytes().all(|c| c.is_ascii_hexdigit()) {
+                return Err("BADSLOT".into());
+            }
+            V::Raw(unhex(h))
+        }
         "{" | "[" => {
             let close = if t == "{" { "}" } else { "]" };
             let mut items = Vec::new();
@@ -90,6 +115,9 @@ pub fn show(v: &V) -> String {
         V::Bytes(b) => format!("x{}", if b.is_empty() { String::new() } else { hex(b) }),
         V::Obj(xs) => format!("{{{} }}", xs.iter().map(|x| format!(" {}", show(x))).collect::<String>()),
         V::Arr(xs) => format!("[{} ]", xs.iter().map(|x| format!(" {}", show(x))).collect::<String>()),
+        V::Raw(b) => format!("r:{}", hex(b)),
+        V::Empty => "_".into(),
+        V::Variant(i, v) => format!("( {} {} )", i, show(v)),
     }
 }
 
@@ -191,6 +219,94 @@ fn privilege_n(p: Privilege) -> u64 {
         .unwrap_or(0x1000 + p.bits() as u64)
 }
 
+fn raw(v: &V) -> R<&[u8]> {
+    match v {
+        V::Raw(b) => Ok(b),
+        _ => bad(),
+    }
+}
+/// a raw element field observed as a consumer does: decoded to a tree with the public accessors
+/// (`tag()`, `value()`, `container()?.iter()`, as stream w) and written again under the anonymous tag
+fn raw_v(e: &TLVElement) -> R<V> {
+    if e.is_empty() {
+        return Ok(V::Empty);
+    }
+    let mut toks = Vec::new();
+    super::decode_tree(e, super::DEPTH_CAP, &mut toks).map_err(|_| "e:RawElement".to_string())?;
+    let mut node = super::parse_tree(&toks.join(" ")).ok_or("e:RawElement".to_string())?;
+    match &mut node {
+        super::Node::Leaf(t, _) | super::Node::Cont(t, _, _) => *t = TLVTag::Anonymous,
+    }
+    super::write_tree(&node, &mut Vec::new()).map(V::Raw).map_err(|_| "e:RawElement".to_string())
+}
+fn attr_path_of(v: &V) -> R<AttrPath> {
+    let s = obj(v, 6)?;
+    Ok(AttrPath {
+        tag_compression: opt(&s[0], boolean)?,
+        node: opt(&s[1], num)?,
+        endpoint: opt(&s[2], n16)?,
+        cluster: opt(&s[3], n32)?,
+        attr: opt(&s[4], n32)?,
+        list_index: match &s[5] {
+            V::Absent => None,
+            V::Null => Some(Nullable::none()),
+            x => Some(Nullable::some(n16(x)?)),
+        },
+    })
+}
+fn attr_path_v(v: &AttrPath) -> V {
+    let li = match &v.list_index {
+        None => V::Absent,
+        Some(n) => n.as_opt_ref().map(|x| vn(*x)).unwrap_or(V::Null),
+    };
+    V::Obj(vec![vo(v.tag_compression, V::Bool), vo(v.node, vn), vo(v.endpoint, vn), vo(v.cluster, vn), vo(v.attr, vn), li])
+}
+fn cmd_path_of(v: &V) -> R<CmdPath> {
+    let s = obj(v, 3)?;
+    Ok(CmdPath { endpoint: opt(&s[0], n16)?, cluster: opt(&s[1], n32)?, cmd: opt(&s[2], n32)? })
+}
+fn cmd_path_v(v: &CmdPath) -> V {
+    V::Obj(vec![vo(v.endpoint, vn), vo(v.cluster, vn), vo(v.cmd, vn)])
+}
+fn status_of(v: &V) -> R<Status> {
+    let s = obj(v, 2)?;
+    Ok(Status { status: status_code_of(&s[0])?, cluster_status: opt(&s[1], n16)? })
+}
+fn status_v(v: &Status) -> V {
+    V::Obj(vec![vn(v.status as u16), vo(v.cluster_status, vn)])
+}
+fn attr_status_of(v: &V) -> R<AttrStatus> {
+    let s = obj(v, 2)?;
+    Ok(AttrStatus { path: attr_path_of(&s[0])?, status: status_of(&s[1])? })
+}
+fn attr_status_v(v: &AttrStatus) -> V {
+    V::Obj(vec![attr_path_v(&v.path), status_v(&v.status)])
+}
+fn attr_data_of(v: &V) -> R<AttrData<'_>> {
+    let s = obj(v, 3)?;
+    Ok(AttrData { data_ver: opt(&s[0], n32)?, path: attr_path_of(&s[1])?, data: TLVElement::new(raw(&s[2])?) })
+}
+fn attr_data_v(v: &AttrData) -> R<V> {
+    Ok(V::Obj(vec![vo(v.data_ver, vn), attr_path_v(&v.path), raw_v(&v.data)?]))
+}
+fn cmd_status_of(v: &V) -> R<CmdStatus> {
+    let s = obj(v, 3)?;
+    Ok(CmdStatus { path: cmd_path_of(&s[0])?, status: status_of(&s[1])?, command_ref: opt(&s[2], n16)? })
+}
+fn cmd_status_v(v: &CmdStatus) -> V {
+    V::Obj(vec![cmd_path_v(&v.path), status_v(&v.status), vo(v.command_ref, vn)])
+}
+fn cmd_data_of(v: &V) -> R<CmdData<'_>> {
+    let s = obj(v, 3)?;
+    Ok(CmdData { path: cmd_path_of(&s[0])?, data: TLVElement::new(raw(&s[1])?), command_ref: opt(&s[2], n16)? })
+}
+fn cmd_data_v(v: &CmdData) -> R<V> {
+    Ok(V::Obj(vec![cmd_path_v(&v.path), raw_v(&v.data)?, vo(v.command_ref, vn)]))
+}
+fn okr(v: R<V>) -> String {
+    v.map(okv).unwrap_or_else(|e| e)
+}
+
 fn enc_any<T: ToTLV>(v: &T) -> String {
     let mut buf = vec![0u8; 16384];
     let mut wb = WriteBuf::new(&mut buf);
@@ -232,6 +348,10 @@ pub enum T {
     St(Vec<F>),
     Ls(Vec<F>),
     Arr(Option<usize>, Box<T>),
+    /// raw `TLVElement`
+    Any,
+    /// enum with payload: (context tag, payload type) per variant
+    Choice(Vec<(u8, T)>),
 }
 #[derive(Clone)]
 pub struct F {
@@ -256,6 +376,27 @@ fn nl(tag: u8, ty: T) -> F {
 }
 fn arr(cap: usize, ty: T) -> T {
     T::Arr(Some(cap), Box::new(ty))
+}
+fn attr_path() -> T {
+    T::Ls(vec![o(0, T::Bool), o(1, u(8)), o(2, u(2)), o(3, u(4)), o(4, u(4)), F { tag: 5, opt: true, nullable: true, ty: u(2) }])
+}
+fn cmd_path() -> T {
+    T::Ls(vec![o(0, u(2)), o(1, u(4)), o(2, u(4))])
+}
+fn status() -> T {
+    T::St(vec![r(0, im_status()), o(1, u(2))])
+}
+fn attr_status() -> T {
+    T::St(vec![r(0, attr_path()), r(1, status())])
+}
+fn attr_data() -> T {
+    T::St(vec![o(0, u(4)), r(1, attr_path()), r(2, T::Any)])
+}
+fn cmd_status() -> T {
+    T::St(vec![r(0, cmd_path()), r(1, status()), o(2, u(2))])
+}
+fn cmd_data() -> T {
+    T::St(vec![r(0, cmd_path()), r(1, T::Any), o(2, u(2))])
 }
 fn acl_entry() -> T {
     T::St(vec![
@@ -320,15 +461,21 @@ fn im_status() -> T {
 
 pub fn schema(name: &str) -> Option<T> {
     Some(match name {
-        "AttrPath" => T::Ls(vec![o(0, T::Bool), o(1, u(8)), o(2, u(2)), o(3, u(4)), o(4, u(4)), F { tag: 5, opt: true, nullable: true, ty: u(2) }]),
-        "CmdPath" => T::Ls(vec![o(0, u(2)), o(1, u(4)), o(2, u(4))]),
+        "AttrPath" => attr_path(),
+        "CmdPath" => cmd_path(),
+        "AttrStatus" => attr_status(),
+        "AttrData" => attr_data(),
+        "AttrResp" => T::Choice(vec![(0, attr_status()), (1, attr_data())]),
+        "CmdStatus" => cmd_status(),
+        "CmdData" => cmd_data(),
+        "CmdResp" => T::Choice(vec![(0, cmd_data()), (1, cmd_status())]),
         "EventPath" => T::Ls(vec![o(0, u(8)), o(1, u(2)), o(2, u(4)), o(3, u(4)), o(4, T::Bool)]),
         "ClusterPath" => cluster_path(),
         "EventFilter" => T::St(vec![o(0, u(8)), o(1, u(8))]),
         "TimedReq" => T::St(vec![r(0, u(2)), o(0xff, u(1))]),
         "Target" => target(),
         "DataVersionFilter" => T::St(vec![r(0, cluster_path()), r(1, u(4))]),
-        "Status" => T::St(vec![r(0, im_status()), o(1, u(2))]),
+        "Status" => status(),
         "StatusResp" => T::St(vec![r(0, im_status()), o(0xff, u(1))]),
         "SessionParameters" => sess_params(),
         "PBKDFParamReq" => T::St(vec![r(1, Oct), r(2, u(2)), r(3, u(2)), r(4, T::Bool), o(5, sess_params())]),
@@ -349,7 +496,7 @@ pub fn schema(name: &str) -> Option<T> {
 pub const NAMES: &[&str] = &[
     "AttrPath", "CmdPath", "EventPath", "ClusterPath", "EventFilter", "TimedReq", "Target", "DataVersionFilter", "Status", "StatusResp",
     "SessionParameters", "PBKDFParamReq", "PBKDFParamResp", "Pake1", "Pake2", "Pake3", "Sigma1Req", "Sigma2Resp", "TBEData2Decrypt",
-    "Sigma3Decrypt", "Sigma2ResumeMsg", "AclEntry", "Fabric",
+    "Sigma3Decrypt", "Sigma2ResumeMsg", "AclEntry", "Fabric", "AttrStatus", "AttrData", "AttrResp", "CmdStatus", "CmdData", "CmdResp",
 ];
 
 /// structures that only derive `FromTLV`: `enc` is the layout writer below
@@ -393,6 +540,13 @@ fn layout_write(tw: &mut WriteBuf, tag: &TLVTag, ty: &T, v: &V, order: Option<&[
             }
             tw.end_container().map_err(e)
         }
+        (T::Any, V::Raw(b)) => TLVElement::new(b).to_tlv(tag, &mut *tw).map_err(e),
+        (T::Choice(alts), V::Variant(i, x)) => {
+            let (t, ty) = alts.get(*i).ok_or("BADSLOT".to_string())?;
+            tw.start_struct(tag).map_err(e)?;
+            layout_write(tw, &TLVTag::Context(*t), ty, x, None)?;
+            tw.end_container().map_err(e)
+        }
         (T::Arr(_, el), V::Arr(xs)) => {
             tw.start_array(tag).map_err(e)?;
             for x in xs {
@@ -419,25 +573,22 @@ fn layout_enc(name: &str, v: &V, order: Option<&[usize]>) -> String {
 fn enc_real(name: &str, v: &V) -> R<String> {
     use rs_matter::sc::pase::verif_tlv as pase;
     Ok(match name {
-        "AttrPath" => {
-            let s = obj(v, 6)?;
-            enc_any(&AttrPath {
-                tag_compression: opt(&s[0], boolean)?,
-                node: opt(&s[1], num)?,
-                endpoint: opt(&s[2], n16)?,
-                cluster: opt(&s[3], n32)?,
-                attr: opt(&s[4], n32)?,
-                list_index: match &s[5] {
-                    V::Absent => None,
-                    V::Null => Some(Nullable::none()),
-                    x => Some(Nullable::some(n16(x)?)),
-                },
-            })
-        }
-        "CmdPath" => {
-            let s = obj(v, 3)?;
-            enc_any(&CmdPath { endpoint: opt(&s[0], n16)?, cluster: opt(&s[1], n32)?, cmd: opt(&s[2], n32)? })
-        }
+        "AttrPath" => enc_any(&attr_path_of(v)?),
+        "CmdPath" => enc_any(&cmd_path_of(v)?),
+        "AttrStatus" => enc_any(&attr_status_of(v)?),
+        "AttrData" => enc_any(&attr_data_of(v)?),
+        "AttrResp" => match v {
+            V::Variant(0, x) => enc_any(&AttrResp::Status(attr_status_of(x)?)),
+            V::Variant(1, x) => enc_any(&AttrResp::Data(attr_data_of(x)?)),
+            _ => return bad(),
+        },
+        "CmdStatus" => enc_any(&cmd_status_of(v)?),
+        "CmdData" => enc_any(&cmd_data_of(v)?),
+        "CmdResp" => match v {
+            V::Variant(0, x) => enc_any(&CmdResp::Cmd(cmd_data_of(x)?)),
+            V::Variant(1, x) => enc_any(&CmdResp::Status(cmd_status_of(x)?)),
+            _ => return bad(),
+        },
         "EventPath" => {
             let s = obj(v, 5)?;
             enc_any(&EventPath {
@@ -462,10 +613,7 @@ fn enc_real(name: &str, v: &V) -> R<String> {
             let s = obj(v, 2)?;
             enc_any(&DataVersionFilter { path: cluster_path_of(&s[0])?, data_ver: n32(&s[1])? })
         }
-        "Status" => {
-            let s = obj(v, 2)?;
-            enc_any(&Status { status: status_code_of(&s[0])?, cluster_status: opt(&s[1], n16)? })
-        }
+        "Status" => enc_any(&status_of(v)?),
         "StatusResp" => {
             let s = obj(v, 2)?;
             enc_any(&StatusResp { status: status_code_of(&s[0])?, interaction_model_revision: opt(&s[1], n8)? })
@@ -551,16 +699,24 @@ fn dec_real(name: &str, data: &[u8]) -> String {
     let e = TLVElement::new(data);
     let ob = |o: Option<&[u8]>| vo(o, vb);
     match name {
-        "AttrPath" => AttrPath::from_tlv(&e)
-            .map(|v| {
-                let li = match &v.list_index {
-                    None => V::Absent,
-                    Some(n) => n.as_opt_ref().map(|x| vn(*x)).unwrap_or(V::Null),
-                };
-                okv(V::Obj(vec![vo(v.tag_compression, V::Bool), vo(v.node, vn), vo(v.endpoint, vn), vo(v.cluster, vn), vo(v.attr, vn), li]))
+        "AttrPath" => AttrPath::from_tlv(&e).map(|v| okv(attr_path_v(&v))).unwrap_or_else(err),
+        "CmdPath" => CmdPath::from_tlv(&e).map(|v| okv(cmd_path_v(&v))).unwrap_or_else(err),
+        "AttrStatus" => AttrStatus::from_tlv(&e).map(|v| okv(attr_status_v(&v))).unwrap_or_else(err),
+        "AttrData" => AttrData::from_tlv(&e).map(|v| okr(attr_data_v(&v))).unwrap_or_else(err),
+        "AttrResp" => AttrResp::from_tlv(&e)
+            .map(|v| match &v {
+                AttrResp::Status(x) => okv(V::Variant(0, Box::new(attr_status_v(x)))),
+                AttrResp::Data(x) => okr(attr_data_v(x).map(|d| V::Variant(1, Box::new(d)))),
             })
             .unwrap_or_else(err),
-        "CmdPath" => CmdPath::from_tlv(&e).map(|v| okv(V::Obj(vec![vo(v.endpoint, vn), vo(v.cluster, vn), vo(v.cmd, vn)]))).unwrap_or_else(err),
+        "CmdStatus" => CmdStatus::from_tlv(&e).map(|v| okv(cmd_status_v(&v))).unwrap_or_else(err),
+        "CmdData" => CmdData::from_tlv(&e).map(|v| okr(cmd_data_v(&v))).unwrap_or_else(err),
+        "CmdResp" => CmdResp::from_tlv(&e)
+            .map(|v| match &v {
+                CmdResp::Cmd(x) => okr(cmd_data_v(x).map(|d| V::Variant(0, Box::new(d)))),
+                CmdResp::Status(x) => okv(V::Variant(1, Box::new(cmd_status_v(x)))),
+            })
+            .unwrap_or_else(err),
         "EventPath" => EventPath::from_tlv(&e)
             .map(|v| okv(V::Obj(vec![vo(v.node, vn), vo(v.endpoint, vn), vo(v.cluster, vn), vo(v.event, vn), vo(v.is_urgent, V::Bool)])))
             .unwrap_or_else(err),
@@ -569,7 +725,7 @@ fn dec_real(name: &str, data: &[u8]) -> String {
         "TimedReq" => TimedReq::from_tlv(&e).map(|v| okv(V::Obj(vec![vn(v.timeout), vo(v.interaction_model_revision, vn)]))).unwrap_or_else(err),
         "Target" => Target::from_tlv(&e).map(|v| okv(target_v(&v))).unwrap_or_else(err),
         "DataVersionFilter" => DataVersionFilter::from_tlv(&e).map(|v| okv(V::Obj(vec![cluster_path_v(&v.path), vn(v.data_ver)]))).unwrap_or_else(err),
-        "Status" => Status::from_tlv(&e).map(|v| okv(V::Obj(vec![vn(v.status as u16), vo(v.cluster_status, vn)]))).unwrap_or_else(err),
+        "Status" => Status::from_tlv(&e).map(|v| okv(status_v(&v))).unwrap_or_else(err),
         "StatusResp" => StatusResp::from_tlv(&e).map(|v| okv(V::Obj(vec![vn(v.status as u16), vo(v.interaction_model_revision, vn)]))).unwrap_or_else(err),
         "SessionParameters" => rs_matter::sc::verif_session_params_dec(data).map(|s| okv(sp_v(s))).unwrap_or_else(err),
         "PBKDFParamReq" => pase::dec_pbkdf_req(data, |a, b, c, d, s| okv(V::Obj(vec![vb(a), vn(b), vn(c), V::Bool(d), vo(s, sp_v)]))).unwrap_or_else(err),
@@ -702,6 +858,19 @@ fn gen_val(r: &mut Rng, ty: &T, nullable: bool) -> V {
                 })
                 .collect(),
         ),
+        T::Any => {
+            // a small random element (all value kinds, nesting up to 2) under the anonymous tag
+            let mut budget = 6usize;
+            let mut node = super::gen_node(r, 2, false, false, true, &mut budget);
+            match &mut node {
+                super::Node::Leaf(t, _) | super::Node::Cont(t, _, _) => *t = TLVTag::Anonymous,
+            }
+            V::Raw(super::write_tree(&node, &mut Vec::new()).unwrap_or_else(|_| vec![0x14]))
+        }
+        T::Choice(alts) => {
+            let i = r.below(alts.len() as u64) as usize;
+            V::Variant(i, Box::new(gen_val(r, &alts[i].1, false)))
+        }
         T::Arr(cap, el) => {
             let max = cap.unwrap_or(6) as u64;
             let n = if max > 40 {
@@ -747,6 +916,10 @@ fn overflow_one(r: &mut Rng, ty: &T, v: &mut V) -> bool {
             b.resize(cap + 1, 0x41);
             true
         }
+        (T::Choice(alts), V::Variant(i, x)) => match alts.get(*i) {
+            Some((_, ty)) => overflow_one(r, ty, x),
+            None => false,
+        },
         (T::St(fs), V::Obj(xs)) | (T::Ls(fs), V::Obj(xs)) => {
             let start = r.below(fs.len().max(1) as u64) as usize;
             for k in 0..fs.len() {
